@@ -75,3 +75,18 @@ Proof.
   - unfold final. cbn [foldl]. rewrite E. exact IH1.
   - cbn [observe]. rewrite E. constructor; [done|exact IH2].
 Qed.
+
+(* the hash pre-image determines the state: replicas with the same pre-image ARE the same state *)
+Lemma canon_inj d1 d2 : canon d1 = canon d2 -> d1 = d2.
+Proof.
+  destruct d1, d2. unfold canon. cbn. intros H.
+  injection H as -> -> -> Hs Hk Hv -> Hh Hi Hr Ho.
+  f_equal; apply map_to_list_inj; by (rewrite Hs || rewrite Hk || rewrite Hv || rewrite Hh || rewrite Hi || rewrite Hr || rewrite Ho).
+Qed.
+
+Lemma canon_snapshot d1 d2 s1 s2 : snapshot d1 = Some s1 -> snapshot d2 = Some s2 -> canon d1 = canon d2 -> s1 = s2.
+Proof. intros H1 H2 Hc. apply canon_inj in Hc. subst. congruence. Qed.
+
+Lemma canon_behaviour P d1 d2 os : canon d1 = canon d2 ->
+  observe P (Live d1) os = observe P (Live d2) os /\ final P (Live d1) os = final P (Live d2) os.
+Proof. intros Hc. apply canon_inj in Hc. by subst. Qed.
